@@ -205,6 +205,7 @@ type ssIn struct {
 	Updated      int           `json:"updated"`      // status.canaryStatus.updatedReplicas of the release
 	NoNeedUpdate *int          `json:"noNeedUpdate"` // status.canaryStatus.noNeedUpdateReplicas
 	Matched      bool          `json:"matched"`      // a Rollout references the workload
+	Pods         int           `json:"pods"`         // ready pods of the update revision owned by the workload (never touched: rollout-id is empty)
 	Steps        []ssStep      `json:"steps"`
 }
 
@@ -610,6 +611,35 @@ func ssRollout(kind string) *v1beta1.Rollout {
 	return ro
 }
 
+func ssPod(i int) *corev1.Pod {
+	p := &corev1.Pod{}
+	p.Namespace, p.Name = "ns", fmt.Sprintf("wl-%d", i)
+	t := true
+	p.OwnerReferences = []metav1.OwnerReference{{APIVersion: "v1", Kind: "X", Name: "wl", UID: "wl-uid", Controller: &t}}
+	p.Labels = map[string]string{"app": "demo", apps.ControllerRevisionHashLabelKey: "rev-new"}
+	p.Spec.Containers = []corev1.Container{{Name: "main", Image: "img:v2"}}
+	p.Status.Phase = corev1.PodRunning
+	p.Status.Conditions = []corev1.PodCondition{{Type: corev1.PodReady, Status: corev1.ConditionTrue}}
+	return p
+}
+
+// ssPodsUntouched: the pods are as they were created
+func ssPodsUntouched(base client.Client, n int) bool {
+	l := &corev1.PodList{}
+	if err := base.List(context.TODO(), l, client.InNamespace("ns")); err != nil || len(l.Items) != n {
+		return false
+	}
+	for i := range l.Items {
+		want := ssPod(i)
+		got := l.Items[i]
+		if got.Name != want.Name || !reflect.DeepEqual(got.Labels, want.Labels) || !reflect.DeepEqual(got.Annotations, want.Annotations) ||
+			got.ResourceVersion != "999" {
+			return false
+		}
+	}
+	return true
+}
+
 // ssFaultClient fails the Get of the workload / the List of its pods on demand (writes are failed by the LogClient below it).
 type ssFaultClient struct {
 	client.Client
@@ -683,7 +713,11 @@ func ssStepRun(base client.Client, in *ssIn, kind string, st ssStep, orig *inter
 		out["res"] = "err"
 	}
 	out["writes"] = len(lc.Log)
-	out["wl"] = ssSnapshot(base, kind, *orig)
+	snap := ssSnapshot(base, kind, *orig)
+	if snap != nil && !ssPodsUntouched(base, in.Pods) {
+		snap.Rest = 1
+	}
+	out["wl"] = snap
 	return out
 }
 
@@ -806,6 +840,9 @@ func ssRun(in *ssIn) interface{} {
 	}
 	if in.Matched {
 		objs = append(objs, ssRollout(kind))
+	}
+	for i := 0; i < in.Pods; i++ {
+		objs = append(objs, ssPod(i))
 	}
 	base := fakeClient(objs...)
 	outs := []interface{}{}
@@ -997,7 +1034,7 @@ func ssLifeCycle(c *Ctx) *ssIn {
 		}
 	}
 	in := &ssIn{Wl: w, Batches: ssBatches(c, R), RollbackAnno: c.Rng.Intn(10) == 0, Updated: c.Rng.Intn(R + 1),
-		NoNeedUpdate: ssNoNeed(c, R, 12), Matched: c.Rng.Intn(8) != 0}
+		NoNeedUpdate: ssNoNeed(c, R, 12), Matched: c.Rng.Intn(8) != 0, Pods: []int{0, 0, 1, 3}[c.Rng.Intn(4)]}
 	nb := len(in.Batches)
 	tm := 1
 	batch := 0
@@ -1123,7 +1160,7 @@ func ssAnyWalk(c *Ctx) *ssIn {
 		R = *w.Replicas
 	}
 	in := &ssIn{Wl: w, Batches: ssBatches(c, R), RollbackAnno: c.Rng.Intn(5) == 0, Updated: c.Rng.Intn(R + 1),
-		NoNeedUpdate: ssNoNeed(c, R, 25), Matched: c.Rng.Intn(4) != 0}
+		NoNeedUpdate: ssNoNeed(c, R, 25), Matched: c.Rng.Intn(4) != 0, Pods: []int{0, 0, 2}[c.Rng.Intn(3)]}
 	if c.Rng.Intn(25) == 0 {
 		in.Wl = nil
 	}
